@@ -192,6 +192,23 @@ def run(ctx):
                     i = int(d[0])
                     ctx.violation("history", f"call #{hi_ + 1} on one EAS object (same batch size, different decay altitudes) differs from a fresh object at event {i}: altDec={alt_h[i]!r} gives (PE {np.asarray(got[0])[i]!r}, cos {np.asarray(got[1])[i]!r}) instead of ({np.asarray(ref[0])[i]!r}, {np.asarray(ref[1])[i]!r})", {"call": hi_ + 1, "event": i})
                     break
+            # ---------------- the same array objects, edited in place between consecutive calls (a caller's scan
+            #                  loop): each call sees the numbers the arrays hold now (seeded C08-16: kernel
+            #                  result cached on the object, keyed on the identity of the argument arrays)
+            try:
+                refs_ip = [EAS(cfg)(be.copy(), p_.copy(), en.copy(), la.copy(), lo.copy()) for p_ in pats]
+                eas_ip = EAS(cfg)
+                buf_alt, buf_en = pats[0].copy(), en.copy()
+                for hi_, p_ in enumerate(pats):
+                    buf_alt[:] = p_
+                    got = eas_ip(be, buf_alt, buf_en, la, lo)
+                    ctx.count("history", n)
+                    if not (np.asarray(got[0]).tobytes() == np.asarray(refs_ip[hi_][0]).tobytes() and np.asarray(got[1]).tobytes() == np.asarray(refs_ip[hi_][1]).tobytes()):
+                        i = int(np.flatnonzero((np.asarray(got[0]) != np.asarray(refs_ip[hi_][0])) | (np.asarray(got[1]) != np.asarray(refs_ip[hi_][1])))[0])
+                        ctx.violation("history", f"call #{hi_ + 1} on one EAS object with the same argument arrays edited in place differs from a fresh object on fresh arrays at event {i}: altDec={buf_alt[i]!r} gives PE {np.asarray(got[0])[i]!r} instead of {np.asarray(refs_ip[hi_][0])[i]!r}", {"call": hi_ + 1, "event": i, "in_place": True})
+                        break
+            except Exception as e:
+                ctx.exception("raises", "EAS.__call__ raised on argument arrays edited in place", e, {})
             # ---------------- whole-number emergence angles (an integer array of zeros): the results are those
             #                  of the same numbers as floats
             cfg_i = NssConfig()
